@@ -41,7 +41,7 @@ pub fn budget(prop: &str, tier: Tier) -> Budget {
         "C05" => (120_000, 600),
         "C09" => (150_000, 480),
         "C06" => (400_000, 480),
-        "C13" => (300_000, 480),
+        "C13" => (600_000, 480),
         "C14" => (20_000, 480),
         "C17" => (100_000, 600),
         "C18" => (150_000, 480),
